@@ -11,7 +11,7 @@ SD="$(cd "$1" && pwd)"; SLOT="$2"; SKIP="${3:-}"
 NAME="$(basename "$SD")"
 PROP="$(python3 -c "import json;print(json.load(open('$SD/meta.json'))['property'])")"
 WT=/tmp/sv-repo-$SLOT
-LOG="$SD/verify.log"; : > "$LOG"
+LOG="$SD/verify.log"; [ "$SKIP" = "--suite-only" ] || : > "$LOG"
 export CARGO_TARGET_DIR=/tmp/sv-target-$SLOT
 export CARGO_INCREMENTAL=0 CARGO_PROFILE_DEV_DEBUG=0 CARGO_PROFILE_TEST_DEBUG=0
 say() { echo "[seed_verify $NAME] $*" | tee -a "$LOG"; }
@@ -74,7 +74,10 @@ fi
 cd /verif
 git -C /repo worktree remove --force "$WT" 2>/dev/null; rm -rf "$WT"; git -C /repo worktree prune
 CHK=-1
-if [ $APPLY = 1 ]; then
+if [ "$SKIP" = "--suite-only" ] && [ -f "$SD/verify.json" ]; then
+  CHK=$(python3 -c "import json;print(json.load(open('$SD/verify.json')).get('check_quick_exit',-1))")
+  say "suite-only pass: keeping the recorded check exit $CHK"
+elif [ $APPLY = 1 ]; then
   say "running ./check $PROP --tier quick against HEAD+patch"
   /verif/tools/mutant_run.sh "$SLOT" "$SD/patch.diff" "$PROP" --tier quick > /tmp/sv-check-$SLOT.log 2>&1; CHK=$?
   grep -E "^(VIOLATION|KNOWN-FINDING|TOOL-ERROR|C[0-9]+:)" /tmp/sv-check-$SLOT.log | cut -c1-400 | head -12 >> "$LOG"
